@@ -60,6 +60,7 @@ def summarize(rr, prop: str) -> dict:
                     | {'trigger': c['spec']['trigger']}
                     for c in rr.crashes],
         'preempt_missing': rr.preempt_missing,
+        'sweep': rr.scn.get('sweep'),
     }
 
 
